@@ -157,6 +157,15 @@ func init() {
 			cfg.IllTyped = 0
 			cfg.BadAllot = 10
 			cfg.SendAll = 150
+			cfg.KeptBias = i%2 == 0
+			cfg.SmallPool = i%3 != 0
+			cfg.WorldProb = 60
+			switch i % 6 {
+			case 2:
+				cfg.Directed = "keptSpan"
+			case 5:
+				cfg.Directed = "repeatDraw"
+			}
 		}, nil)
 	}
 }
